@@ -6,8 +6,9 @@
      dec_vec 64 / dec_vec 128 / dec_coeff_i64                               decode_vec_i64 / decode_vec_i128 / decode_coeff_i64
      dec_float                                                          decode_vec_float (exact: value = num / 2^e)
      e_div_round 64 / e_div_round 128                                       div_round_i64 / div_round_i128
-   The private normalisation steps of encoding.rs are textually the kernels of reference/znx/normalization.rs, i.e.
-   `first_step_assign`, `middle_step_assign`, `final_step_assign` of Model/Znx.v at w = 64 (imported, not re-modelled).
+   The private normalisation steps of encoding.rs are the kernels of reference/znx/normalization.rs except for the carry,
+   which since ba594a2 is `(x >> base2k) + (digit < 0)` (`enc_get_carry`, no `x - digit` that could wrap): `enc_first_step`,
+   `enc_middle_step` below; the final step computes no carry and is `final_step_assign` of Model/Znx.v at w = 64.
 
    Flat layer: the same header as the 81xx records,  ps = dbg n | cols size max col | 0 0 0 0 | b k x y,
    `size` = active limbs (a.size()), `max` = capacity; opcodes 8301.. in `run_c08_enc`, statement in `oracle_c08_enc`. *)
@@ -32,6 +33,23 @@ Definition e_div_round (w a b : Z) : Z :=
 
 (* ---------------- encoding, one coefficient ---------------- *)
 
+(* get_carry_i64 / get_carry_i128 of encoding.rs: (x >> base2k) + ((digit < 0) as iN) *)
+Definition enc_get_carry (w b x d : Z) : Z := wadd w (asr x b) (if d <? 0 then 1 else 0).
+
+(* znx_normalize_first_step_assign (private copy) : x -> (x', c') *)
+Definition enc_first_step (b lsh x : Z) : Z * Z :=
+  if lsh =? 0 then let d := get_digit 64 b x in (d, enc_get_carry 64 b x d)
+  else let d := get_digit 64 (b - lsh) x in (shl 64 d lsh, enc_get_carry 64 (b - lsh) x d).
+
+(* znx_normalize_middle_step_assign (private copy) : (x, c) -> (x', c') *)
+Definition enc_middle_step (b lsh x c : Z) : Z * Z :=
+  let bl := if lsh =? 0 then b else b - lsh in
+  let d := get_digit 64 bl x in
+  let cr := enc_get_carry 64 bl x d in
+  let dpc := wadd 64 (if lsh =? 0 then d else shl 64 d lsh) c in
+  let x1 := get_digit 64 b dpc in
+  (x1, wadd 64 cr (enc_get_carry 64 b dpc x1)).
+
 (* limbs size-2 .. 0 (listed in that order) of the in-place loop: middle steps, the last one (limb 0) a final step *)
 Fixpoint enc_tail (b lsh : Z) (l : list Z) (c : Z) : list Z :=
   match l with
@@ -39,7 +57,7 @@ Fixpoint enc_tail (b lsh : Z) (l : list Z) (c : Z) : list Z :=
   | x :: t =>
       match t with
       | [] => [final_step_assign 64 b lsh x c]
-      | _ :: _ => let '(x', c') := middle_step_assign 64 b lsh x c in x' :: enc_tail b lsh t c'
+      | _ :: _ => let '(x', c') := enc_middle_step b lsh x c in x' :: enc_tail b lsh t c'
       end
   end.
 
@@ -47,7 +65,7 @@ Fixpoint enc_tail (b lsh : Z) (l : list Z) (c : Z) : list Z :=
 Definition enc_norm (b lsh : Z) (size : nat) (r : list Z) : list Z :=
   match rev (firstn size r) with
   | [] => r
-  | x :: t => let '(x', c) := first_step_assign 64 b lsh x in
+  | x :: t => let '(x', c) := enc_first_step b lsh x in
               rev (x' :: enc_tail b lsh t c) ++ skipn size r
   end.
 
@@ -61,7 +79,7 @@ Definition enc_i64 (b k : Z) (a_size : nat) (v : Z) : list Z :=
 Fixpoint enc_digits128 (b : Z) (cnt : nat) (a : Z) : list Z :=
   match cnt with
   | O => []
-  | S c => let d := get_digit 128 b a in wrap 64 d :: enc_digits128 b c (get_carry 128 b a d)
+  | S c => let d := get_digit 128 b a in wrap 64 d :: enc_digits128 b c (enc_get_carry 128 b a d)
   end.
 
 (* encode_vec_i128: base-2^b digits on limbs [0,size), limbs [size,a_size) zeroed, then the same i64 loop with lsh = k_rem *)
